@@ -73,6 +73,9 @@ def gen_cases(tier, seed):
             "fee": rng.choice([1000, 1000, 0, 1, 12345, 999]), "version": rng.choice([1, 1, 2]), "locktime": rng.choice([0, 0, 5, 500000000 + 7]),
             "flag": FLAGS[0] if rng.random() < 0.55 else rng.choice(FLAGS), "recipient": rng.choice(["p2pkh", "p2sh", "segwit0", "segwit1", "pubkey", "raw"]),
             "change": rng.choice(["default", "default", "p2pkh", "segwit0"]), "m_n": rng.choice([[1, 1], [1, 2], [2, 2], [2, 3], [3, 3]]),
+            # several unspent outputs of ONE funding transaction (same txid, different vout and amount) is the normal case for a
+            # wallet that was paid twice in one transaction: anything keyed by txid alone confuses them
+            "txid_mode": rng.choice(["distinct", "distinct", "shared"]),
         }
     # the same workload through the command line (argument parsing, flag mapping, key reading are part of what a user relies on)
     for i in range(120 if q else 1500):
@@ -93,6 +96,9 @@ def gen_cases(tier, seed):
     # is ground with the reference EC for the very digest send_tx signs
     for j in range(8 if q else 60):
         yield "send_ground", {"kind": ["p2pkh-c", "p2wpkh", "p2pk-c", "p2sh-p2wpkh"][j % 4], "salt": rng.getrandbits(48), "net": NETS[j % 3]}
+    # ... and with a very short r (the half nonce: r has 11 leading zero bytes)
+    for j in range(8 if q else 60):
+        yield "send_ground", {"kind": ["p2pkh-c", "p2wpkh", "p2pk-c", "p2sh-p2wpkh"][j % 4], "salt": rng.getrandbits(48), "net": NETS[j % 3], "target": "short_r"}
 
 
 def _boundary_cases(rng, n):
@@ -114,8 +120,8 @@ def _boundary_cases(rng, n):
 
 
 def required(tier):
-    return {"class.change_near_dust_or_fee_boundary": 40, "class.zero_value_utxo": 25, "send.via_cli": 80, "ground.signed_with_short_high_s": 4, "send.returned": 450, "send.signed_decided": 300, "send.unsigned_decided": 50, "inputs.verified": 400,
-            "class.amount_hostile": 60, "class.vout_ne_index": 60, "class.multi_input": 100, "class.version2_or_locktime": 100,
+    return {"class.change_near_dust_or_fee_boundary": 40, "class.zero_value_utxo": 25, "send.via_cli": 80, "ground.signed_with_short_high_s": 4, "ground.signed_with_short_r": 4, "send.returned": 450, "send.signed_decided": 300, "send.unsigned_decided": 50, "inputs.verified": 400,
+            "class.amount_hostile": 60, "class.shared_txid": 60, "class.vout_ne_index": 60, "class.multi_input": 100, "class.version2_or_locktime": 100,
             "class.recipient_raw": 40, "class.change_present": 100, "class.change_subdust": 3, "selfcheck.ok": 3,
             "kind.segwit.valid": 80, "kind.legacy.valid": 80}
 
@@ -263,9 +269,21 @@ def run_case(kind, params, ctx):
     n_utxo = params["n_utxo"]
     sats = amounts(rng, params["amount_mode"], n_utxo)
     utxos = []
-    for j in range(n_utxo):
-        vout = {"zero": 0, "index": j, "random": rng.randrange(0, 6)}[params["vout_mode"]]
-        utxos.append({"txid": rand_bytes(rng, 32).hex(), "vout": vout, "sat": sats[j]})
+    shared = params.get("txid_mode") == "shared" and n_utxo > 1
+    if shared:
+        base_txid = rand_bytes(rng, 32).hex()
+        vouts = {"zero": list(range(n_utxo)), "index": list(range(n_utxo)), "random": rng.sample(range(0, 9), n_utxo)}[params["vout_mode"]]
+        n_shared = n_utxo if n_utxo < 3 else rng.choice([n_utxo, n_utxo - 1])
+        for j in range(n_utxo):
+            utxos.append({"txid": base_txid if j < n_shared else rand_bytes(rng, 32).hex(), "vout": vouts[j], "sat": sats[j]})
+        if params["vout_mode"] == "random":
+            rng.shuffle(utxos)
+        sats = [u["sat"] for u in utxos]
+        ctx.count("class.shared_txid")
+    else:
+        for j in range(n_utxo):
+            vout = {"zero": 0, "index": j, "random": rng.randrange(0, 6)}[params["vout_mode"]]
+            utxos.append({"txid": rand_bytes(rng, 32).hex(), "vout": vout, "sat": sats[j]})
     total = sum(sats)
     js = json.dumps  # build the JSON TEXT a node would send, then parse it like the rpc client does
     text = '{"success": true, "txouts": 100, "height": 200, "unspents": [' + ", ".join(
@@ -525,16 +543,23 @@ def _send_ground(ctx, params):
             z = int.from_bytes(rsh.bip143_sighash_fields(t1, 0, sc, sat, 1), "big")
         else:
             z = int.from_bytes(rsh.legacy_sighash(dict(t1, vin=[dict(t1["vin"][0], script="")]), 0, snd["spk"], 1), "big")
+        target = params.get("target", "short_s_high_bit")
         k = rng.randrange(1, N)
-        for _ in range(6000):
+        if target == "short_r":
+            # x((1/2) G) has 11 leading zero bytes: the shortest r there is, for any digest
+            k = (N + 1) // 2
             r, sv = recdsa.sign_with_k(d, z % N, k)
             sl = min(sv, N - sv)
-            if r and sl and sl.bit_length() % 8 == 0 and sl.bit_length() < 256:
-                break
-            k = k % (N - 1) + 1
         else:
-            ctx.count("ground.grind_failed")
-            return
+            for _ in range(6000):
+                r, sv = recdsa.sign_with_k(d, z % N, k)
+                sl = min(sv, N - sv)
+                if r and sl and target == "short_s_high_bit" and sl.bit_length() % 8 == 0 and sl.bit_length() < 256:
+                    break
+                k = k % (N - 1) + 1
+            else:
+                ctx.count("ground.grind_failed")
+                return
         try:
             t2, sh2 = build(k)
         except ContractViolation as cv:
@@ -547,10 +572,14 @@ def _send_ground(ctx, params):
             return
     finally:
         brpc.rpc_method = orig
-    ctx.count("ground.signed_with_short_high_s")
+    ctx.count({"short_s_high_bit": "ground.signed_with_short_high_s", "short_r": "ground.signed_with_short_r", "short_s": "ground.signed_with_short_s"}[target])
+    ctx.count("send.signed_decided")
     ctx.nontrivial()
     ok, why = interp.verify_input(t2, 0, snd["spk"], sat)
     ctx.count("inputs.verified")
+    fam = "legacy" if skind in LEGACY else "segwit"
     if not ok:
-        fam = "legacy" if skind in LEGACY else "segwit"
-        ctx.violation(f"sig-invalid/{fam}/s-short-with-top-bit", f"sender {skind}: signature whose low-S value is {sl.bit_length() // 8} bytes with the top bit set: {why}")
+        tk = {"short_s_high_bit": "s-short-with-top-bit", "short_r": "r-short", "short_s": "s-short"}[target]
+        ctx.violation(f"sig-invalid/{fam}/{tk}", f"sender {skind}: signature with r of {(r.bit_length() + 7) // 8} bytes and low-S value of {(sl.bit_length() + 7) // 8} bytes ({target}): {why}")
+    else:
+        ctx.count(f"kind.{fam}.valid")
